@@ -74,7 +74,7 @@ func c04Gen(r *Rand, tier string) interface{} {
 			in.Prior = strings.Repeat("OLD-CONTENT-", 1+len(in.Data)/6)
 		}
 		in.PriorVia = []string{"WriteFile", "Writer"}[r.Intn(2)]
-		for k := r.Intn(5); k > 0; k-- {
+		for k := r.Intn(7); k > 0; k-- {
 			in.Chunks = append(in.Chunks, r.Pick(0, 1, 3, 16, 500))
 		}
 		for k := r.Intn(3); k > 0; k-- {
@@ -162,7 +162,10 @@ func c04Stream(in *c04In, env *Env) *Failure {
 				return
 			}
 		}
-		r := RunFsOp(b.fs, FsOp{Kind: "Writer", Path: path, Data: in.Data, Chunks: in.Chunks})
+		// no write fault is planned in this shape: the stream is written through the backend's
+		// own Writer (not the fault layer's wrapper), so that whatever optional methods it
+		// offers (ReadFrom, WriteString) are reachable for io.Copy / io.WriteString, as for a caller
+		r := RunFsOp(b.clean, FsOp{Kind: "Writer", Path: path, Data: in.Data, Chunks: in.Chunks})
 		if r.Panic != "" {
 			post = failf("C04/panic", key, "Writer: %s", r.Panic)
 			return
